@@ -245,7 +245,9 @@ impl FileSystem for FakeFileSystem {
     }
 
     fn glob(&self, pattern: &str) -> Result<Vec<PathBuf>, LoadError> {
-        let pattern = glob::Pattern::new(pattern)?;
+        // keys are normalized paths, so `..` or `.` in the pattern must be resolved as well.
+        let pattern = self.canonicalize_path(Path::new(pattern));
+        let pattern = glob::Pattern::new(&pattern.to_string_lossy())?;
         let mut paths: Vec<PathBuf> = self
             .0
             .keys()
